@@ -1,5 +1,6 @@
 import DoitModel.Proofs.StatusTouch
 import DoitModel.Props.C03
+import DoitModel.Proofs.UtdTools
 /-! # C04 — an unchanged task is never re-executed (minimal rebuild)
 
 Property theorems only.  Same model, histories and invariant as C03 (`Props/C03.lean`); this is the converse
@@ -146,3 +147,211 @@ example :
   decide
 
 end DoitModel.C04
+
+namespace DoitModel.C04.Helpers
+open DoitModel.UtdTools
+
+/-! ## the uptodate helpers of doit/tools.py and `result_dep` (model `Model/UtdTools.lean`)
+
+What each helper answers, for all inputs, as a function of (what the last successful execution saved, the present
+world); `md5` is any function (injective where said so), `tps` any tick rate. -/
+
+/-- **run_once** is up-to-date iff a (truthy) `run-once` value is saved. -/
+theorem run_once_true_iff (saved : Saved) :
+    (runOnce saved).ans = .yes ↔ ∃ v, lookup saved kRunOnce = some v ∧ v.truthy = true :=
+  runOnce_yes_iff saved
+
+example : (runOnce [(kRunOnce, .tt)]).ans = .yes ∧ (runOnce []).ans = .no := by decide
+
+/-- **config_changed** is up-to-date iff a value was saved and it equals the digest of the present config (str: the
+    string itself; dict: md5 of the canonical JSON); a config that is neither raises. -/
+theorem config_changed_true_iff (md5 : Str → Str) (saved : Saved) (w : World) :
+    (configChanged md5 saved w).ans = .yes ↔
+      ∃ d, digest md5 w.cfg = .ok d ∧ lookup saved kConfig = some (.str d) :=
+  config_yes_iff md5 saved w
+
+/-- dict form, md5 taken as injective: up-to-date iff the canonical JSON texts are the same -/
+theorem config_changed_dict_iff (md5 : Str → Str) (hinj : ∀ a b, md5 a = md5 b → a = b) (c0 c : Str) (w : World)
+    (hw : w.cfg = .dict c) :
+    (configChanged md5 [(kConfig, .str (md5 c0))] w).ans = .yes ↔ c0 = c := by
+  rw [config_yes_iff, hw]
+  simp only [digest, lookup_single]
+  constructor
+  · rintro ⟨d, hd, hs⟩
+    cases hd
+    simp only [Option.some.injEq, Val.str.injEq] at hs
+    exact hinj _ _ hs
+  · rintro rfl
+    exact ⟨_, rfl, rfl⟩
+
+/-- the saver registered by `configure_task` writes the digest computed at the check, whatever the world is when it
+    runs (a dict mutated by the task's own action is recorded as it was *before* the action) -/
+theorem config_saver_writes_checked_digest (md5 : Str → Str) (saved : Saved) (w w' : World) (d : Str)
+    (hd : digest md5 w.cfg = .ok d) :
+    (configChanged md5 saved w).saver w' = .ok [(kConfig, .str d)] := by
+  simp [configChanged, hd]
+
+example : (configChanged id [(kConfig, .str "x".toList)] { World.init with cfg := .dict "x".toList }).ans = .yes ∧
+    (configChanged id [(kConfig, .str "x".toList)] { World.init with cfg := .dict "y".toList }).ans = .no ∧
+    (configChanged id [] { World.init with cfg := .bad }).ans = .raised .badConfig := by decide
+
+/-- **timeout** is up-to-date iff a success time is saved and the time elapsed since is strictly below the limit. -/
+theorem timeout_true_iff (tps : Nat) (lim : Limit) (saved : Saved) (w : World) :
+    (timeout tps lim saved w).ans = .yes ↔
+      ∃ last, lookup saved kSuccessTime = some (.num last) ∧ w.clock - last < limitSec lim * tps :=
+  timeout_yes_iff tps lim saved w
+
+/-- once expired, a timeout stays expired while the clock moves on and no new success is recorded -/
+theorem timeout_expiry_monotone (tps : Nat) (lim : Limit) (saved : Saved) (w w' : World)
+    (hclk : w.clock ≤ w'.clock) (h : (timeout tps lim saved w).ans ≠ .yes) :
+    (timeout tps lim saved w').ans ≠ .yes := by
+  rw [Ne, timeout_yes_iff] at *
+  rintro ⟨last, hl, hlt⟩
+  exact h ⟨last, hl, by omega⟩
+
+/-- after a success recorded at clock `c` the task is up-to-date exactly while less than the limit has elapsed;
+    `timedelta` limits count whole seconds only (`days*86400 + seconds`, microseconds dropped) -/
+theorem timeout_after_success_iff (tps : Nat) (lim : Limit) (saved : Saved) (w w' : World) (kv : Saved)
+    (hs : (timeout tps lim saved w).saver w = .ok kv) :
+    (timeout tps lim kv w').ans = .yes ↔ w'.clock - w.clock < limitSec lim * tps := by
+  simp only [timeout] at hs
+  cases hs
+  rw [timeout_yes_iff]
+  simp [lookup_single]
+
+example : limitSec (.delta 1 2 999999) = 86402 ∧
+    (timeout 4 (.int 2) [(kSuccessTime, .num 0)] { World.init with clock := 7 }).ans = .yes ∧
+    (timeout 4 (.int 2) [(kSuccessTime, .num 0)] { World.init with clock := 8 }).ans = .no := by decide
+
+/-- **check_timestamp_unchanged** is up-to-date iff a time is saved under `<file>.<st_attr>`, the file can be
+    stat-ed and `cmp_op(saved, current)` holds. -/
+theorem timestamp_unchanged_iff (f : Str) (a : Attr) (c : Cmp) (saved : Saved) (w : World) :
+    (stamp f a c saved w).ans = .yes ↔
+      ∃ prev st, lookup saved (stampKey f a) = some (.num prev) ∧ w.files f = some st ∧
+        c.app prev (st.get a) = true :=
+  stamp_yes_iff f a c saved w
+
+/-- a missing file is an error once a time is saved (and only then: the first check does not stat) -/
+theorem timestamp_missing_file (f : Str) (a : Attr) (c : Cmp) (saved : Saved) (w : World) (hf : w.files f = none) :
+    (stamp f a c saved w).ans = (match lookup saved (stampKey f a) with
+      | some (.num _) => .raised .osError
+      | _ => .no) ∧ (stamp f a c saved w).saver w = .error .osError := by
+  constructor
+  · simp only [stamp, getTime, hf]
+    cases lookup saved (stampKey f a) with
+    | none => rfl
+    | some v => cases v <;> rfl
+  · simp [stamp, stampSaver, getTime, hf]
+
+/-- the saved key tells the three timestamps of one file apart -/
+theorem stampKey_attr_injective (f : Str) (a b : Attr) (h : stampKey f a = stampKey f b) : a = b := by
+  simp only [stampKey, List.append_cancel_left_eq, List.cons.injEq, true_and] at h
+  exact attrName_inj h
+
+example : (stamp "f".toList .atime .eq [(stampKey "f".toList .atime, .num 3)]
+      { World.init with files := fun _ => some ⟨3, 5, 9⟩ }).ans = .yes ∧
+    (stamp "f".toList .mtime .eq [(stampKey "f".toList .atime, .num 3)]
+      { World.init with files := fun _ => some ⟨3, 5, 9⟩ }).ans = .no := by decide
+
+/-- **result_dep** is up-to-date iff a (non-null) result is saved under `_result:<name>` and it equals the present
+    result of the task — for a group, the dict of the results of its sub-tasks (`<name>:…` entries of its task_dep). -/
+theorem result_dep_true_iff (d : Str) (saved : Saved) (w : World) :
+    (resultDep d saved w).ans = .yes ↔
+      ∃ v, lookup saved (kResult d) = some v ∧ v ≠ .null ∧ valEq v (depResult w d) = true :=
+  resultDep_yes_iff d saved w
+
+example : (resultDep "d".toList [(kResult "d".toList, .dict [("d:b".toList, none), ("d:a".toList, some ['r'])])]
+      { World.init with group := fun _ => some ["d:a".toList, "dx".toList, "d:b".toList],
+                        resultOf := fun s => if s = "d:a".toList then .str ['r'] else .null }).ans = .yes := by decide
+
+/-- **C03 flavour.**  No helper answers up-to-date when no successful execution recorded its key — in particular on
+    an empty record (first run, after `forget`, after a failed execution, which removes the record). -/
+theorem helper_never_yes_unrecorded (md5 : Str → Str) (tps : Nat) (it : Item) (saved : Saved) (w : World)
+    (h : lookup saved it.key = none) : (it.call md5 tps saved w).ans ≠ .yes :=
+  call_not_yes_of_unrecorded md5 tps it saved w h
+
+/-- … hence a run in such a state never skips the task, and a failed execution leaves such a state -/
+theorem helper_run_unrecorded (md5 : Str → Str) (tps : Nat) (it : Item) (s : St) (ok : Bool) (during : List Change)
+    (h : lookup s.saved it.key = none) :
+    (step md5 tps it s (.run ok during)).2 ≠ .skipped ∧ (step md5 tps it s .query).2 ≠ .answered .yes ∧
+    (ok = false → (∀ e, (it.call md5 tps s.saved s.world).ans ≠ .raised e) →
+      (step md5 tps it s (.run ok during)).1.saved = []) := by
+  have hn := call_not_yes_of_unrecorded md5 tps it s.saved s.world h
+  have hfin : ∀ o : Out, (finishRun s o ok during).2 ≠ .skipped := by
+    intro o
+    cases ok with
+    | false => simp [finishRun]
+    | true =>
+      simp only [finishRun, if_true]
+      cases o.saver (s.world.applyAll during) <;> simp
+  refine ⟨?_, ?_, ?_⟩
+  · simp only [step]
+    cases ha : (it.call md5 tps s.saved s.world).ans with
+    | yes => exact absurd ha hn
+    | no => exact hfin _
+    | ignored => exact hfin _
+    | raised e => simp
+  · simp only [step]
+    intro hq
+    injection hq with hq
+    exact hn hq
+  · intro hok hr
+    subst hok
+    simp only [step]
+    cases ha : (it.call md5 tps s.saved s.world).ans with
+    | yes => exact absurd ha hn
+    | no => simp [finishRun]
+    | ignored => simp [finishRun]
+    | raised e => exact absurd ha (hr e)
+
+/-- **C03 flavour, over histories.**  Starting from an empty record, whatever the world does and however often the
+    task is checked or its execution fails: as long as no execution succeeded, no check answers up-to-date and no run
+    skips the task (any helper, any sequence of world changes / status queries / failing runs). -/
+theorem helper_history_never_yes_without_success (md5 : Str → Str) (tps : Nat) (it : Item) (ops : List Op)
+    (w : World) (h : ops.all Op.noSuccess = true) :
+    ∀ ob ∈ (runOps md5 tps it ⟨[], w⟩ ops).2, ob ≠ .skipped ∧ ob ≠ .answered .yes :=
+  (runOps_noSuccess md5 tps it ops ⟨[], w⟩ rfl h).2
+
+example : (runOps id 4 (.stampOf ['f'] .mtime (.const true)) St.init
+    [.change (.setFile ['f'] (some ⟨1, 1, 1⟩)), .query, .run false [], .query]).2 =
+    [.changed, .answered .no, .executedFailed .no, .answered .no] := by decide
+
+/-- **C04 flavour.**  Right after a successful execution, in the world that execution left, every helper that can
+    be up-to-date at all (`canRepeat`: timeout limit positive, `cmp_op` reflexive, the other task has a result, the
+    config has a digest) answers up-to-date. -/
+theorem helper_yes_after_success (md5 : Str → Str) (tps : Nat) (it : Item) (saved kv : Saved) (w : World)
+    (hs : (it.call md5 tps saved w).saver w = .ok kv) (hc : it.canRepeat tps w = true) :
+    (it.call md5 tps kv w).ans = .yes :=
+  call_yes_after_save md5 tps it saved kv w hs hc
+
+/-- the same on the machine: a run that executed and saved (nothing changing during the execution) is followed by
+    `up-to-date` on a status query and by a skip on the next run -/
+theorem helper_rerun_skips (md5 : Str → Str) (tps : Nat) (it : Item) (s s' : St) (a : Ans) (kv : Saved)
+    (hrun : step md5 tps it s (.run true []) = (s', .executedSaved a kv)) (hc : it.canRepeat tps s.world = true)
+    (ok : Bool) (during : List Change) :
+    (step md5 tps it s' .query).2 = .answered .yes ∧ step md5 tps it s' (.run ok during) = (s', .skipped) := by
+  have key : s' = ⟨kv, s.world⟩ ∧ (it.call md5 tps s.saved s.world).saver s.world = .ok kv := by
+    simp only [step] at hrun
+    cases ha : (it.call md5 tps s.saved s.world).ans with
+    | yes => simp [ha] at hrun
+    | raised e => simp [ha] at hrun
+    | no =>
+      simp only [ha, finishRun, World.applyAll, List.foldl_nil, if_true] at hrun
+      cases hsv : (it.call md5 tps s.saved s.world).saver s.world with
+      | error e => simp [hsv] at hrun
+      | ok kv' => simp only [hsv, Prod.mk.injEq, Obs.executedSaved.injEq] at hrun; exact ⟨by rw [← hrun.1, hrun.2.2], by rw [hrun.2.2]⟩
+    | ignored =>
+      simp only [ha, finishRun, World.applyAll, List.foldl_nil, if_true] at hrun
+      cases hsv : (it.call md5 tps s.saved s.world).saver s.world with
+      | error e => simp [hsv] at hrun
+      | ok kv' => simp only [hsv, Prod.mk.injEq, Obs.executedSaved.injEq] at hrun; exact ⟨by rw [← hrun.1, hrun.2.2], by rw [hrun.2.2]⟩
+  obtain ⟨rfl, hsv⟩ := key
+  have hy := call_yes_after_save md5 tps it s.saved kv s.world hsv hc
+  simp only [step, hy, and_self]
+
+example : Item.canRepeat 4 World.init (.tmo (.int 1)) = true ∧
+    Item.canRepeat 4 World.init (.stampOf [] .ctime .ge) = true ∧ Item.canRepeat 4 World.init (.resDep []) = false ∧
+    (step id 4 (.tmo (.int 1)) St.init (.run true [])).2 = .executedSaved .no [(kSuccessTime, .num 0)] ∧
+    (step id 4 (.tmo (.int 1)) ⟨[(kSuccessTime, .num 0)], World.init⟩ .query).2 = .answered .yes := by decide
+
+end DoitModel.C04.Helpers
